@@ -603,27 +603,34 @@ def masked_aead_groups(prefix, props, tier="quick", ops=("encrypt", "decrypt"), 
     return gs
 
 
-def masked_asm_permute_groups(prefix, props, tier="quick", seed=0):
+def masked_asm_permute_groups(prefix, props, tier="quick", seed=0, layouts=(4,)):
     """x86-64 assembly masked permutations (default masked backend on this host), lifted on every run: one group per
-    (share count, first_round): round lemma for that round from an arbitrary sharing + plumbing to the exit."""
+    (share count, first_round): round lemma for that round from an arbitrary sharing + plumbing to the exit.
+    layouts: values of ASCON_MASKED_MAX_SHARES (the .S files carry one variant of the code per word layout)."""
     gs = []
-    for n in (2, 3, 4):
-        rounds = list(range(0, 13)) + [13, 255]
-        if tier == "quick":     # x2: every round; x3 / x4: a seed-rotated sample plus the exit case (the thorough tier runs all)
-            if n == 3:
-                rounds = [seed % 12, (seed + 5) % 12, 12]
-            if n == 4:
-                rounds = [(seed + 3) % 12, 12]
-        sig = ["--fn=ascon_x%d_permute:void:ascon_masked_state_t * state,uint8_t first_round,uint64_t * preserve" % n]
-        for r in rounds:
-            gs.append(Group("%s.permute.x%d.x86_64_asm.round%d" % (prefix, n, r), props, "harness/h_masked_permute_asm.c",
-                            "h_masked_permute_asm", [], cfg="DEF",
-                            defs=["VERIF_SHARES=%d" % n, "VERIF_FIRST=%d" % r, "VERIF_FN=ascon_x%d_permute" % n],
-                            lift=("src/masking/ascon-x%d-asm-x86-64.S" % n, sig), unwind=14, timeout=2400,
-                            functions=["ascon_x%d_permute (x86-64 assembly, lifted)" % n], expect_classes=["assertion"],
-                            note="round loop (<= 12 iterations) completely unwound with unwinding assertion; cut at the loop condition label"))
-            if n >= 3:
-                gs[-1].reach = False      # vacuity of this harness is established by the x2 groups (an x4 reach pass costs 10 min)
+    for maxs in layouts:
+        for n in (2, 3, 4):
+            if n > maxs:
+                continue
+            rounds = list(range(0, 13)) + [13, 255]
+            if tier == "quick":     # x2: every round; x3 / x4: a seed-rotated sample plus the exit case (the thorough tier runs all)
+                if n == 3:
+                    rounds = [seed % 12, (seed + 5) % 12, 12]
+                if n == 4:
+                    rounds = [(seed + 3) % 12, 12]
+            if maxs != 4:           # the other layouts: same instruction stream with other offsets; a third of the rounds
+                rounds = [r for r in rounds if r % 3 == seed % 3 or r >= 12]
+            sig = ["--fn=ascon_x%d_permute:void:ascon_masked_state_t * state,uint8_t first_round,uint64_t * preserve" % n]
+            for r in rounds:
+                gs.append(Group("%s.permute.x%d.x86_64_asm%s.round%d" % (prefix, n, "" if maxs == 4 else ".max%d" % maxs, r), props,
+                                "harness/h_masked_permute_asm.c", "h_masked_permute_asm", [], cfg="DEF",
+                                defs=["VERIF_SHARES=%d" % n, "VERIF_FIRST=%d" % r, "VERIF_FN=ascon_x%d_permute" % n] +
+                                     (["ASCON_MASKED_MAX_SHARES=%d" % maxs] if maxs != 4 else []),
+                                lift=("src/masking/ascon-x%d-asm-x86-64.S" % n, sig), unwind=14, timeout=2400,
+                                functions=["ascon_x%d_permute (x86-64 assembly, lifted)" % n], expect_classes=["assertion"],
+                                note="round loop (<= 12 iterations) completely unwound with unwinding assertion; cut at the loop condition label"))
+                if n >= 3:
+                    gs[-1].reach = False      # vacuity of this harness is established by the x2 groups (an x4 reach pass costs 10 min)
     return gs
 
 
